@@ -62,7 +62,7 @@ PROPS = {
     "C03": ingest("C03", "deterministic simulation: conservation oracle - multiset of rows in successful blocks attributed to an acknowledged request equals the entries the generator put in its body",
                   "For every acknowledged request of every log/metric protocol the rows in successful blocks are compared with the body model (timestamp, line/value, type, one fingerprint per stream); in fault-free runs every well-formed body must be acknowledged. The input space is sampled; body fragmentation, chunk thresholds, concurrent pushes and retries are simulated.",
                   "the input quantifier is sampled by the generator; expected sample types follow the wire format (line only = log, value only = metric, both = undefined)", INGEST_RULE,
-                  ["request-parsed-into-several-chunks", "request-answered-2xx"], design_ref="DESIGN.md §4 C03"),
+                  ["request-parsed-into-several-chunks", "request-answered-2xx", "client-retried-after-5xx", "acked-loki-json", "acked-loki-json-entries", "acked-loki-proto", "acked-prom-rw", "acked-influx", "acked-datadog-logs", "acked-datadog-metrics", "acked-otlp-logs", "acked-zipkin", "acked-zipkin-nd", "acked-otlp-traces", "acked-pprof", "acked-pprof-multipart", "acked-elastic-bulk", "acked-elastic-doc"], design_ref="DESIGN.md §4 C03"),
     "C04": ingest("C04", "deterministic simulation of request histories across days, cache resets, failed series inserts, time zones; oracle = durable (fingerprint,type,day) index state at ack time versus the reader's own date bound",
                   "Histories of pushes of recurring label sets over simulated time (30-minute cache reset, midnight crossings, five process time zones) with series/sample insert faults; at every ack each sample needs a successfully inserted series row of its type under a day the reader searches (lower bound taken from the tree's FormatFromDate). Fingerprint = function of the label set and label document = JSON of the set are checked over all rows of the run (sampled inputs).",
                   "hash half of the property is only sampled; clustered mode skips the cache by design and is excluded from the index oracle", INGEST_RULE,
@@ -106,11 +106,12 @@ READ_RULE = ("a case is one seeded run of the whole reader in a synctest bubble:
 PROPS["C12"] = read("C12", "TestRead", "deterministic simulation of the reader on a scripted fault-injecting database/sql driver; oracles: response or abort in bounded simulated time, no unrecovered panic/fatal error in any goroutine, goroutine census back to baseline, livelock and spin detection, lock discipline of shared Go maps (the runtime's concurrent-map abort is a crash the serialising scheduler cannot produce)",
                     "Every read endpoint is driven with grammar-generated, mutated and random queries and hostile parameters while the database fails or stalls at arbitrary rows and clients go away; a panic on any goroutine (the pipeline stages run outside net/http's recover), a fatal runtime error that kills the worker, a request that never returns and request goroutines alive 35 simulated seconds after the end are violations.",
                     "inputs and fault points are sampled; SQL is never executed", READ_RULE,
-                    ["rows-closed-before-end", "status-2xx", "status-5xx", "endpoint-query_range", "endpoint-search", "endpoint-prom_range"], crash=True, design_ref="DESIGN.md §5 C12")
+                    ["rows-closed-before-end", "status-2xx", "status-5xx", "endpoint-query_range", "endpoint-search", "endpoint-prom_range", "query_range-2xx", "query-2xx", "labels-2xx", "label_values-2xx", "series-2xx", "prom_range-2xx", "prom_instant-2xx", "prom_labels-2xx", "prom_series-2xx", "trace-2xx", "trace_json-2xx", "search-2xx", "tags-2xx", "tags_v2-2xx", "tag_values-2xx", "tag_values_v2-2xx", "prof_types-2xx", "prof_label_names-2xx", "prof_label_values-2xx", "prof_select_series-2xx", "prof_merge-2xx", "prof_series-2xx", "prof_merge_profiles-2xx", "render_diff-2xx", "tail-2xx"], crash=True, design_ref="DESIGN.md §5 C12")
 PROPS["C15"] = read("C15", "TestRead", "deterministic simulation (fault-free configuration) of the query endpoints on scripted result sets; oracle: the collected body parses as one JSON document and, for pass-through log queries, contains every served row exactly once under one object per label set; metric documents (LogQL, PromQL): one object per series, strictly increasing timestamps, served values unchanged; list endpoints: every served string once; concurrent requests interleave at every socket write",
                     "The real pipeline (Scan batching at 100 rows, stage goroutines, streaming encoder) sits between the scripted rows and the body; result-set shapes (empty, batch-boundary inside a series, fingerprint 0 first, interleaved series, special characters) are sampled by the generator. Weak claim: the decisive quantifier (result sets) is sampled.",
                     "row-level comparison only for plain selector queries (no stage changes the rows); other endpoints are checked for being one well-formed JSON document", READ_RULE,
-                    ["status-2xx", "endpoint-query_range", "endpoint-query"], design_ref="DESIGN.md §5 C15")
+                    # every endpoint must reach its success path: a fake that mistypes a column sends it down the error path silently
+                    ["status-2xx", "endpoint-query_range", "endpoint-query", "query_range-2xx", "query-2xx", "labels-2xx", "label_values-2xx", "series-2xx", "prom_range-2xx", "prom_instant-2xx", "prom_labels-2xx", "prom_series-2xx", "trace-2xx", "trace_json-2xx", "search-2xx", "tags-2xx", "tags_v2-2xx", "tag_values-2xx", "tag_values_v2-2xx", "prof_types-2xx", "prof_label_names-2xx", "prof_label_values-2xx", "prof_select_series-2xx", "prof_merge-2xx", "prof_series-2xx", "prof_merge_profiles-2xx", "render_diff-2xx", "tail-2xx"], design_ref="DESIGN.md §5 C15")
 PROPS.update({
     "C18": {
         "pkg": "ctrlsim", "test": "TestC18", "instrument": False, "level": "fault_enumeration",
